@@ -97,70 +97,210 @@ fn probe_n_value_drop() {
     drop(v);
 }
 
-#[kani::proof]
-#[kani::unwind(8)]
-#[kani::stub(serde_json::from_slice, stubs::from_slice)]
-fn probe_o_parse_fail_folds() {
+
+fn setup_fail() {
     unsafe {
+        stubs::N_PARSE = 0;
         stubs::PARSE[0].ok = false;
     }
-    let buf = [b'm'];
-    let r: serde_json::Result<crate::Request> = serde_json::from_slice(&buf);
-    match r {
-        Ok(req) => {
-            // should be unreachable: rfind only shows up in the log if symex gets here
-            let n = req.method.rfind('.');
-            assert!(n.is_none());
-            std::mem::forget(req);
-        }
-        Err(e) => std::mem::forget(e),
-    }
 }
 
-#[kani::proof]
-#[kani::unwind(8)]
-#[kani::stub(serde_json::from_slice, stubs::from_slice)]
-fn probe_p_install_then_parse() {
-    use super::shared::src_trait::KSrc;
-    let sc = super::shared::c01::draw(&mut KSrc, 1);
-    super::c01::install(&sc, 0, 0);
-    let buf = [b'm'];
-    let r: serde_json::Result<crate::Request> = serde_json::from_slice(&buf);
-    match r {
-        Ok(req) => {
-            let n = req.method.rfind('.');
-            assert!(n.is_none());
-            std::mem::forget(req);
-        }
-        Err(e) => std::mem::forget(e),
-    }
-}
-
-fn like_handle(buf: &[u8]) -> crate::Result<usize> {
-    let req: crate::Request = serde_json::from_slice(buf).map_err(|e| {
-        crate::context!(
-            e,
-            crate::ErrorKind::SerdeJsonDe(String::from_utf8_lossy(buf).to_string())
-        )
-    })?;
+fn use_req(req: crate::Request) -> usize {
     let n = match req.method.rfind('.') {
         None => 0,
         Some(x) => x,
     };
-    Ok(n)
+    n
 }
 
+// A: map_err with a trivial closure, then match
+#[kani::proof]
+#[kani::unwind(8)]
+#[kani::stub(serde_json::from_slice, stubs::from_slice)]
+#[kani::stub(core::slice::memchr::memrchr, stubs::naive_memrchr)]
+fn probe_r_a_maperr_trivial() {
+    setup_fail();
+    let buf = [b'm'];
+    let r: std::result::Result<crate::Request, u8> = serde_json::from_slice::<crate::Request>(&buf).map_err(|e| {
+        std::mem::forget(e);
+        1u8
+    });
+    match r {
+        Ok(req) => {
+            let n = use_req(req);
+            assert!(n == 0);
+        }
+        Err(_) => {}
+    }
+}
+
+// B: trivial closure + `?`
+fn b_inner(buf: &[u8]) -> std::result::Result<usize, u8> {
+    let req: crate::Request = serde_json::from_slice(buf).map_err(|e| {
+        std::mem::forget(e);
+        1u8
+    })?;
+    Ok(use_req(req))
+}
+#[kani::proof]
+#[kani::unwind(8)]
+#[kani::stub(serde_json::from_slice, stubs::from_slice)]
+#[kani::stub(core::slice::memchr::memrchr, stubs::naive_memrchr)]
+fn probe_r_b_question() {
+    setup_fail();
+    let buf = [b'm'];
+    let r = b_inner(&buf);
+    assert!(r.is_err());
+}
+
+// C: the real closure (context! with a boxed source error), then match
 #[kani::proof]
 #[kani::unwind(8)]
 #[kani::stub(serde_json::from_slice, stubs::from_slice)]
 #[kani::stub(alloc::string::String::from_utf8_lossy, stubs::from_utf8_lossy)]
 #[kani::stub(core::slice::memchr::memrchr, stubs::naive_memrchr)]
-fn probe_q_like_handle() {
-    use super::shared::src_trait::KSrc;
-    let sc = super::shared::c01::draw(&mut KSrc, 1);
-    super::c01::install(&sc, 0, 0);
+fn probe_r_c_context_closure() {
+    setup_fail();
     let buf = [b'm'];
-    let r = like_handle(&buf);
-    assert!(r.is_err());
-    std::mem::forget(r);
+    let r: crate::Result<crate::Request> = serde_json::from_slice::<crate::Request>(&buf).map_err(|e| {
+        crate::context!(
+            e,
+            crate::ErrorKind::SerdeJsonDe(String::from_utf8_lossy(&buf).to_string())
+        )
+    });
+    match r {
+        Ok(req) => {
+            let n = use_req(req);
+            assert!(n == 0);
+        }
+        Err(e) => std::mem::forget(e),
+    }
+}
+
+// D: varlink::Error without a boxed source
+#[kani::proof]
+#[kani::unwind(8)]
+#[kani::stub(serde_json::from_slice, stubs::from_slice)]
+#[kani::stub(core::slice::memchr::memrchr, stubs::naive_memrchr)]
+fn probe_r_d_error_nobox() {
+    setup_fail();
+    let buf = [b'm'];
+    let r: crate::Result<crate::Request> = serde_json::from_slice::<crate::Request>(&buf).map_err(|e| {
+        std::mem::forget(e);
+        crate::Error(crate::ErrorKind::Generic, None, None)
+    });
+    match r {
+        Ok(req) => {
+            let n = use_req(req);
+            assert!(n == 0);
+        }
+        Err(e) => std::mem::forget(e),
+    }
+}
+
+// E: boxed source, constant kind
+#[kani::proof]
+#[kani::unwind(8)]
+#[kani::stub(serde_json::from_slice, stubs::from_slice)]
+#[kani::stub(core::slice::memchr::memrchr, stubs::naive_memrchr)]
+fn probe_r_e_error_box() {
+    setup_fail();
+    let buf = [b'm'];
+    let r: crate::Result<crate::Request> = serde_json::from_slice::<crate::Request>(&buf).map_err(|e| {
+        crate::Error(crate::ErrorKind::Generic, Some(Box::from(e)), None)
+    });
+    match r {
+        Ok(req) => {
+            let n = use_req(req);
+            assert!(n == 0);
+        }
+        Err(e) => std::mem::forget(e),
+    }
+}
+
+// F: no box, kind carrying a String
+#[kani::proof]
+#[kani::unwind(8)]
+#[kani::stub(serde_json::from_slice, stubs::from_slice)]
+#[kani::stub(core::slice::memchr::memrchr, stubs::naive_memrchr)]
+fn probe_r_f_error_stringkind() {
+    setup_fail();
+    let buf = [b'm'];
+    let r: crate::Result<crate::Request> = serde_json::from_slice::<crate::Request>(&buf).map_err(|e| {
+        std::mem::forget(e);
+        crate::Error(crate::ErrorKind::SerdeJsonDe(String::new()), None, None)
+    });
+    match r {
+        Ok(req) => {
+            let n = use_req(req);
+            assert!(n == 0);
+        }
+        Err(e) => std::mem::forget(e),
+    }
+}
+
+fn marker_loop(n: usize) -> usize {
+    // shows up in the log as "Unwinding loop ... marker_loop" iff symex gets here
+    let mut i = 0;
+    let mut s = 0;
+    while i < n {
+        s += i;
+        i += 1;
+    }
+    s
+}
+
+
+fn ok_path(which: u8) {
+    let f: Option<bool> = match kani::any::<u8>() % 3 {
+        0 => None,
+        1 => Some(false),
+        _ => Some(true),
+    };
+    unsafe {
+        stubs::N_PARSE = 0;
+        stubs::PARSE[0].ok = true;
+        let mut s = super::nde::MapScript::empty();
+        s.flag("more", if which == 0 { f } else { None });
+        s.flag("oneway", if which == 1 { f } else { None });
+        s.flag("upgrade", if which == 2 { f } else { None });
+        s.string("method", "a.b.M", true);
+        s.opaque("parameters", true, true);
+        stubs::PARSE[0].obj = s;
+    }
+    let buf = [b'm'];
+    let r: crate::Result<crate::Request> = serde_json::from_slice::<crate::Request>(&buf).map_err(|e| {
+        std::mem::forget(e);
+        crate::Error(crate::ErrorKind::Generic, None, None)
+    });
+    match r {
+        Ok(req) => {
+            assert!(req.parameters.is_none());
+            drop(req);
+        }
+        Err(e) => {
+            let k = marker_loop(3);
+            assert!(k == 3);
+            std::mem::forget(e);
+        }
+    }
+}
+
+#[kani::proof]
+#[kani::unwind(8)]
+#[kani::stub(serde_json::from_slice, stubs::from_slice)]
+fn probe_s0_more_symbolic() {
+    ok_path(0);
+}
+#[kani::proof]
+#[kani::unwind(8)]
+#[kani::stub(serde_json::from_slice, stubs::from_slice)]
+fn probe_s1_oneway_symbolic() {
+    ok_path(1);
+}
+#[kani::proof]
+#[kani::unwind(8)]
+#[kani::stub(serde_json::from_slice, stubs::from_slice)]
+fn probe_s2_upgrade_symbolic() {
+    ok_path(2);
 }
